@@ -165,7 +165,7 @@ package protocol
 //@ func (*ReportProof).SetMsg
 //@   ensures dec: err == nil ==> resp.TaskID == uuidP(msg.TaskID) && wfProof(resp.Proof)
 //@ func (*ReportQualities).SetMsg
-//@   loop i invariant count: len(qualities) == #rangeindex + 1
+//@   loop i invariant count: len(qualities) == #iter
 //@   ensures dec: err == nil ==> resp.TaskID == uuidP(msg.TaskID) && len(resp.Qualities) == len(msg.Qualities)
 //@ func NewProof
 //@   ensures wf: err == nil ==> wfProof(result0)
